@@ -78,3 +78,6 @@ Lemma zlen_cons {A} (x : A) l : zlen (x :: l) = 1 + zlen l.
 Proof. unfold zlen; cbn [length]; lia. Qed.
 Lemma zlen_nil {A} : zlen (@nil A) = 0.
 Proof. reflexivity. Qed.
+
+Lemma Ok_inj {A} (a b : A) : Ok a = Ok b -> a = b.
+Proof. intros H. injection H. auto. Qed.
